@@ -2073,6 +2073,11 @@ int main(int argc, char** argv)
             return 3;
         }
     }
+    if ((a.mode == "graph" || a.mode == "product") && (a.cfg.nkeys < 1 || a.cfg.nkeys > MAXK))
+    {
+        fprintf(stderr, "HARNESS ERROR: --keys must be 1..%d\n", MAXK);
+        return 3;
+    }
     if (a.mode == "replay")
     {
         FILE* f = fopen(a.replay_file.c_str(), "r");
